@@ -311,6 +311,73 @@ theorem ok_matches_target_partial (ops : List Op) (op : Op) (caller : Nat) (c : 
   · exact Or.inl htm
   · exact Or.inr hm
 
+/-! ## `ok` equals the caller's expected value -/
+
+/-- What "equals the expected value" means for a cfg: without a target nothing is required; a plain target
+must be byte-identical (`Content` equality); with `is_register` the value and the target are both registers
+with the same base register and the same set of ops (ops lists are canonical, so list equality is set
+equality; the owner signature is not part of the comparison). -/
+def TargetEq (cfg : Cfg) (c : Content) : Prop :=
+  match cfg.target with
+  | none => True
+  | some t =>
+    if cfg.isReg then ∃ b s s' ops, c = .reg b s ops ∧ t = .reg b s' ops
+    else c = t
+
+/-- `does_target_match` (with the comparison regenerated from the source) accepts exactly the values that
+equal the target in the sense of `TargetEq`. -/
+theorem targetMatch_iff_equals (cfg : Cfg) (c : Content) : targetMatch cfg c = true ↔ TargetEq cfg c := by
+  unfold targetMatch TargetEq
+  cases cfg.target with
+  | none => simp
+  | some t =>
+    simp only []
+    by_cases hr : cfg.isReg = true
+    · simp only [hr, if_true]
+      cases c with
+      | reg b s ops =>
+        cases t with
+        | reg b' s' ops' =>
+          simp only [opsMatch, regTargetOpsCmp, Bool.and_eq_true, beq_iff_eq]
+          constructor
+          · rintro ⟨h1, h2⟩
+            exact ⟨b, s, s', ops, rfl, by rw [h1, h2]⟩
+          · rintro ⟨b0, s0, s0', o0, h1, h2⟩
+            injection h1 with e1 _ e3
+            injection h2 with f1 _ f3
+            exact ⟨by rw [e1, f1], by rw [e3, f3]⟩
+        | junk _ => simp
+        | hdr _ _ => simp
+        | txs _ => simp
+        | pad _ _ _ _ => simp
+      | junk _ => simp
+      | hdr _ _ => simp
+      | txs _ => simp
+      | pad _ _ _ _ => simp
+    · simp [hr]
+
+/-- **`ok` equals the target.** A delivered `ok c` equals the expected value of the cfg the query runs under —
+byte-identical for a plain target, same base register and same op set for an `is_register` target — unless it
+is the transaction merge of a split (known finding K-d2). -/
+theorem ok_equals_target (ops : List Op) (op : Op) (caller : Nat) (c : Content)
+    (h : (caller, Outcome.ok c) ∈ (step (run ops) op).2.deliveries) :
+    ∃ q ∈ (run ops).pending, caller ∈ q.senders ∧ (TargetEq q.cfg c ∨ Merged q op c) := by
+  obtain ⟨q, hq, hc, hb⟩ := ok_matches_target_partial ops op caller c h
+  refine ⟨q, hq, hc, ?_⟩
+  rcases hb with hb | hb
+  · exact Or.inl ((targetMatch_iff_equals q.cfg c).1 hb)
+  · exact Or.inr hb
+
+-- register targets: equal ops match whatever the owner signature; a superset, a subset, disjoint ops, another
+-- base and an undecodable record (even a byte-identical one) do not
+example : targetMatch { quorum := .one, target := some (.reg 0 true [1]), isReg := true } (.reg 0 false [1]) = true := by decide
+example : targetMatch { quorum := .one, target := some (.reg 0 true [1]), isReg := true } (.reg 0 true [1, 2]) = false := by decide
+example : targetMatch { quorum := .one, target := some (.reg 0 true [1, 2]), isReg := true } (.reg 0 true [1]) = false := by decide
+example : targetMatch { quorum := .one, target := some (.reg 0 true [1]), isReg := true } (.reg 0 true [2]) = false := by decide
+example : targetMatch { quorum := .one, target := some (.reg 0 true [1]), isReg := true } (.reg 1 true [1]) = false := by decide
+example : targetMatch { quorum := .one, target := some (.hdr .reg 0), isReg := true } (.hdr .reg 0) = false := by decide
+example : targetMatch { quorum := .one, target := some (.reg 0 true [1]), isReg := false } (.reg 0 false [1]) = false := by decide
+
 /-! ## Split: all versions or their merge -/
 
 /-- the version map a query holds when `op` is handled -/
@@ -688,6 +755,8 @@ end SafeNet.Props.C05
 #print axioms SafeNet.Props.C05.merged_skips_target_witness
 #print axioms SafeNet.Props.C05.not_okMatchesTarget
 #print axioms SafeNet.Props.C05.ok_matches_target_partial
+#print axioms SafeNet.Props.C05.targetMatch_iff_equals
+#print axioms SafeNet.Props.C05.ok_equals_target
 #print axioms SafeNet.Props.C05.split_returns_all_or_merge
 #print axioms SafeNet.Props.C05.one_outcome_each
 #print axioms SafeNet.Props.C05.terminating_event_answers_all
